@@ -54,7 +54,7 @@ def _work(task):
         r = symx.run_path(
             harness, params, p,
             time_sort=opts["time_sort"], query_timeout_ms=opts["query_timeout_ms"],
-            max_decisions=opts["max_decisions"],
+            max_decisions=opts["max_decisions"], isolate_checks=opts.get("isolate_checks", False),
         )
         n += 1
         stack.extend(r.new_prefixes)
@@ -148,7 +148,7 @@ class Report:
 
 def explore(ref, params=None, *, workers=None, max_paths=200000, max_wall_s=600,
             validate=True, time_sort="int", query_timeout_ms=30000, max_decisions=4000,
-            seed=0, batch_paths=25, batch_s=2.0, stop_on_violation=False):
+            seed=0, batch_paths=25, batch_s=2.0, stop_on_violation=False, isolate_checks=False):
     """Explore all paths of a harness.  Returns a Report; ``complete`` is True only
     if the work list ran empty with no cap hit, no error and no inconclusive branch."""
     workers = workers or min(16, os.cpu_count() or 1)
@@ -158,7 +158,7 @@ def explore(ref, params=None, *, workers=None, max_paths=200000, max_wall_s=600,
     opts = {
         "time_sort": time_sort, "query_timeout_ms": query_timeout_ms,
         "max_decisions": max_decisions, "validate": bool(validate),
-        "validate_filter": _always,
+        "validate_filter": _always, "isolate_checks": isolate_checks,
     }
     pending = [[]]
     load(ref)  # import the harness (and finam) before forking so that workers share it
